@@ -1,6 +1,7 @@
 package rules
 
 import (
+	"go/ast"
 	"go/token"
 	"go/types"
 	"sort"
@@ -1231,4 +1232,809 @@ func pathsUnderNoMountAreRefused(c *core.Ctx) {
 		core.Undecidedf("only %d mount lookups with a tested outcome found in package os", n)
 	}
 	c.Stat("mount_lookups", n)
+}
+
+// ---------------------------------------------------------------------------
+// vmOptionsSetWhatTheyAreGiven: an option of the VM sets the field it is for
+// to the value it was made with, whatever that value is.  The options that a
+// configuration sends describe it as a whole (risor.Config.VMOpts sends an
+// importer also when it has none): an option that leaves the field alone when
+// its value is nil keeps what an earlier evaluation on the same VM had put
+// there, and the evaluation imports from the earlier one's root.
+func vmOptionsSetWhatTheyAreGiven(c *core.Ctx) {
+	p := c.P
+	vmT := vmType(p)
+	n := 0
+	for _, fn := range repoFns(p, "vm") {
+		if fn.Parent() == nil || fn.Signature.Params().Len() != 1 || fn.Signature.Recv() != nil {
+			continue
+		}
+		if pt, ok := fn.Signature.Params().At(0).Type().(*types.Pointer); !ok || core.NamedOf(pt.Elem()) != vmT {
+			continue
+		}
+		if len(fn.FreeVars) == 0 {
+			continue
+		}
+		fromFree := func(v ssa.Value) *ssa.FreeVar {
+			var out *ssa.FreeVar
+			for _, o := range core.Origins(v) {
+				if fv, ok := o.(*ssa.FreeVar); ok {
+					out = fv
+				}
+				if u, ok := o.(*ssa.UnOp); ok && u.Op == token.MUL {
+					if fv, ok := u.X.(*ssa.FreeVar); ok {
+						out = fv
+					}
+				}
+			}
+			return out
+		}
+		k := 0
+		for _, b := range fn.Blocks {
+			for _, in := range b.Instrs {
+				st, ok := in.(*ssa.Store)
+				if !ok {
+					continue
+				}
+				fa, ok := st.Addr.(*ssa.FieldAddr)
+				if !ok || core.NamedOf(fa.X.Type()) != vmT {
+					continue
+				}
+				fv := fromFree(st.Val)
+				if fv == nil {
+					continue
+				}
+				n++
+				k++
+				bad := ""
+				for _, b2 := range fn.Blocks {
+					if b2 == b || !b2.Dominates(b) || len(b2.Instrs) == 0 {
+						continue
+					}
+					iff, ok := b2.Instrs[len(b2.Instrs)-1].(*ssa.If)
+					if !ok {
+						continue
+					}
+					if core.DependsOn(iff.Cond, func(w ssa.Value) bool { return fromFree(w) == fv }) {
+						bad = p.Pos(iff.Cond.Pos())
+					}
+				}
+				c.Check(bad == "", core.SSAName(fn.Parent())+"|VirtualMachine."+fieldNameOf(vmT, fa.Field)+"|set-whatever-the-value-is|"+sprintf("%d", k), p.Pos(st.Pos()),
+					"the option that "+fn.Parent().Name()+" makes sets "+fieldNameOf(vmT, fa.Field)+ife(bad == "", " to the value it was given", " only when the value passes the test at "+bad+": given a value that does not, it leaves what earlier options put there, and an evaluation whose configuration has nothing to give runs with what an earlier evaluation on the VM had"))
+			}
+		}
+	}
+	if n == 0 {
+		core.Undecidedf("no option of the VM stores its value in a field")
+	}
+	c.Stat("vm_option_stores", n)
+}
+
+// ---------------------------------------------------------------------------
+// stringsInImportStatementsAreValidated: what an import statement names is
+// an identifier, or a string that the parser has validated (identifiers
+// separated by slashes).  The VM joins the names onto the importer's root with
+// filepath.Join, which resolves ".." - the only thing between a script and
+// <root>/../secret is that validation.  A parse function of the import
+// statements that accepts a string token therefore validates, itself, the
+// string it accepted.
+func stringsInImportStatementsAreValidated(c *core.Ctx) {
+	p := c.P
+	pp := p.Pkg("parser")
+	validate := core.LookupFunc(pp, "validateImportPath")
+	if validate == nil {
+		core.Undecidedf("parser.validateImportPath not found")
+	}
+	vf := p.SSAFunc(validate)
+	tokP := p.Pkg("token")
+	strK := tokP.Types.Scope().Lookup("STRING")
+	if strK == nil {
+		core.Undecidedf("token.STRING not found")
+	}
+	strVal := strK.(*types.Const).Val().ExactString()
+	n := 0
+	for _, fn := range repoFns(p, "parser") {
+		if !strings.Contains(strings.ToLower(fn.Name()), "import") || fn == vf {
+			continue
+		}
+		accepts := ""
+		validates := false
+		for _, b := range fn.Blocks {
+			for _, in := range b.Instrs {
+				ci, ok := in.(ssa.CallInstruction)
+				if !ok {
+					continue
+				}
+				cal := ci.Common().StaticCallee()
+				if cal == vf {
+					validates = true
+				}
+				if cal == nil || !core.RepoFunc(cal) {
+					continue
+				}
+				switch cal.Name() {
+				case "peekTokenIs", "curTokenIs", "expectPeek":
+					for _, a := range ci.Common().Args {
+						vals := []ssa.Value{a}
+						// (the variadic kinds of expectPeek arrive as a slice literal)
+						if sl, ok := a.(*ssa.Slice); ok {
+							if al, ok := sl.X.(*ssa.Alloc); ok && al.Referrers() != nil {
+								for _, r := range *al.Referrers() {
+									if ia, ok := r.(*ssa.IndexAddr); ok && ia.Referrers() != nil {
+										for _, r2 := range *ia.Referrers() {
+											if s, ok := r2.(*ssa.Store); ok {
+												vals = append(vals, s.Val)
+											}
+										}
+									}
+								}
+							}
+						}
+						for _, v := range vals {
+							if k, ok := v.(*ssa.Const); ok && k.Value != nil && k.Value.ExactString() == strVal && core.NamedOf(k.Type()) != nil && core.NamedOf(k.Type()).Obj().Pkg() == tokP.Types {
+								accepts = p.Pos(in.Pos())
+							}
+						}
+					}
+				}
+			}
+		}
+		if accepts == "" {
+			continue
+		}
+		n++
+		c.Check(validates, core.SSAName(fn)+"|accepted-string-validated", p.Pos(fn.Pos()),
+			fn.Name()+" accepts a string token (at "+accepts+")"+ife(validates, " and validates the string with validateImportPath", " and does not validate it: the string becomes a name that the VM joins onto the importer's root as it is (from pkg import \"../../secret\" runs <root>/../secret)"))
+	}
+	if n == 0 {
+		core.Undecidedf("no parse function of the import statements accepts a string")
+	}
+	c.Stat("import_string_acceptors", n)
+}
+
+// ---------------------------------------------------------------------------
+// orderAndEqualityLookAtTheNumbers: Compare and Equals of the numeric types
+// decide by Go's comparison of the numbers, both of them.  A Compare that
+// orders the bit patterns instead (math.Float64bits, the IEEE total order)
+// puts -0.0 before +0.0 while Equals, which compares the floats, calls them
+// equal: sorted() and == then disagree about the same two values.
+func orderAndEqualityLookAtTheNumbers(c *core.Ctx) {
+	p := c.P
+	n := 0
+	var reach func(f *ssa.Function, d int, seen map[*ssa.Function]bool) string
+	reach = func(f *ssa.Function, d int, seen map[*ssa.Function]bool) string {
+		if f == nil || f.Blocks == nil || seen[f] {
+			return ""
+		}
+		seen[f] = true
+		for _, b := range f.Blocks {
+			for _, in := range b.Instrs {
+				ci, ok := in.(ssa.CallInstruction)
+				if !ok {
+					continue
+				}
+				cal := ci.Common().StaticCallee()
+				if cal == nil {
+					continue
+				}
+				if cal.Pkg != nil && cal.Pkg.Pkg.Path() == "math" && (cal.Name() == "Float64bits" || cal.Name() == "Float32bits") {
+					return "math." + cal.Name() + " at " + p.Pos(in.Pos())
+				}
+				if core.RepoFunc(cal) && d < 2 && cal.Name() != "Compare" && cal.Name() != "Equals" {
+					if w := reach(cal, d+1, seen); w != "" {
+						return w
+					}
+				}
+			}
+		}
+		return ""
+	}
+	for _, fn := range repoFns(p, "object") {
+		if (fn.Name() != "Compare" && fn.Name() != "Equals") || fn.Signature.Recv() == nil || fn.Synthetic != "" {
+			continue
+		}
+		rt := core.NamedOf(fn.Signature.Recv().Type())
+		if rt == nil {
+			continue
+		}
+		// the numeric types: the payload is a Go number
+		st, ok := rt.Underlying().(*types.Struct)
+		if !ok {
+			continue
+		}
+		numeric := false
+		for i := 0; i < st.NumFields(); i++ {
+			if bt, ok := st.Field(i).Type().Underlying().(*types.Basic); ok && bt.Info()&types.IsNumeric != 0 && st.Field(i).Name() == "value" {
+				numeric = true
+			}
+		}
+		if !numeric {
+			continue
+		}
+		n++
+		w := reach(fn, 0, map[*ssa.Function]bool{})
+		c.Check(w == "", "object."+rt.Obj().Name()+"."+fn.Name()+"|decides-by-the-numbers", p.Pos(fn.Pos()),
+			rt.Obj().Name()+"."+fn.Name()+ife(w == "", " decides by comparing the numbers", " decides by the bit pattern of a float ("+w+"): -0.0 and +0.0, which the other of Compare and Equals calls equal, are told apart"))
+	}
+	if n < 4 {
+		core.Undecidedf("only %d Compare/Equals methods of numeric types found", n)
+	}
+	c.Stat("numeric_comparisons", n)
+}
+
+// ---------------------------------------------------------------------------
+// iteratorsReadTheContainerAtEveryStep: an iterator over a script container
+// holds the container and looks at its items when it is asked for the next
+// one.  A slice header taken from the container when the iterator is made is
+// neither a snapshot nor the container: shifts in place show through, the
+// length does not follow, and after an append that reallocates the iterator
+// walks an array that the list has left.
+func iteratorsReadTheContainerAtEveryStep(c *core.Ctx) {
+	p := c.P
+	op := p.Pkg("object")
+	objI := core.MustType(op, "Object").Underlying().(*types.Interface)
+	n := 0
+	for _, fn := range repoFns(p, "object") {
+		// makes an iterator: allocates a struct whose type is named ...Iter
+		for _, b := range fn.Blocks {
+			for _, in := range b.Instrs {
+				al, ok := in.(*ssa.Alloc)
+				if !ok || !al.Heap {
+					continue
+				}
+				it := core.NamedOf(al.Type())
+				if it == nil || !strings.HasSuffix(strings.ToLower(it.Obj().Name()), "iter") || it.Obj().Pkg() != op.Types {
+					continue
+				}
+				if _, isStruct := it.Underlying().(*types.Struct); !isStruct {
+					continue
+				}
+				n++
+				bad := ""
+				for _, st := range storesToAlloc(fn, al) {
+					if _, isSlice := st.Val.Type().Underlying().(*types.Slice); !isSlice {
+						continue
+					}
+					for _, o := range core.Origins(st.Val) {
+						if sl, ok := o.(*ssa.Slice); ok {
+							o = sl.X
+						}
+						u, ok := o.(*ssa.UnOp)
+						if !ok || u.Op != token.MUL {
+							continue
+						}
+						fa, ok := u.X.(*ssa.FieldAddr)
+						if !ok {
+							continue
+						}
+						owner := core.NamedOf(fa.X.Type())
+						if owner == nil || owner.Obj().Pkg() != op.Types || !types.Implements(types.NewPointer(owner), objI) {
+							continue
+						}
+						bad = "the " + fieldNameOf(owner, fa.Field) + " of the " + owner.Obj().Name() + " (" + p.Pos(st.Pos()) + ")"
+					}
+				}
+				c.Check(bad == "", core.SSAName(fn)+"|"+it.Obj().Name()+"|holds-the-container-not-its-slice", p.Pos(al.Pos()),
+					fn.Name()+" makes a "+it.Obj().Name()+ife(bad == "", " that holds no slice header taken from a script container", " and stores in it "+bad+": the header is taken once, so what the script does to the container during the loop is seen in part (shifts in place) or not at all (after a reallocating append)"))
+			}
+		}
+	}
+	if n < 5 {
+		core.Undecidedf("only %d iterator constructions found", n)
+	}
+	c.Stat("iterator_constructions", n)
+}
+
+// storesToAlloc: the stores into fields of the struct that al allocates.
+func storesToAlloc(fn *ssa.Function, al *ssa.Alloc) []*ssa.Store {
+	var out []*ssa.Store
+	for _, b := range fn.Blocks {
+		for _, in := range b.Instrs {
+			if st, ok := in.(*ssa.Store); ok {
+				if fa, ok := st.Addr.(*ssa.FieldAddr); ok && fa.X == ssa.Value(al) {
+					out = append(out, st)
+				}
+			}
+		}
+	}
+	return out
+}
+
+// ---------------------------------------------------------------------------
+// theLoaderLimitsWhatTheCompilerLimits: the loader refuses stored code by its
+// size only where the compiler would have refused to make it: a test of the
+// length of a table of the stored form against a constant has a counterpart
+// in the compiler, a test of the length of the same table of the code object.
+// A limit that only the loader knows (the number of instruction words: jumps
+// are relative, nothing bounds the length of the stream) refuses data that
+// the marshaller has produced from code that compiles and runs.
+func theLoaderLimitsWhatTheCompilerLimits(c *core.Ctx) {
+	p := c.P
+	cp := p.Pkg("compiler")
+	codeT := core.MustType(cp, "Code")
+	unm := core.LookupFunc(cp, "UnmarshalCode")
+	if unm == nil {
+		core.Undecidedf("compiler.UnmarshalCode not found")
+	}
+	storeFile := p.Fset.Position(unm.Pos()).Filename
+	// the tables whose length the compiler tests against a constant
+	limited := map[string]bool{}
+	lenOfField := func(v ssa.Value, owner func(*types.Named) bool) (string, bool) {
+		call, ok := v.(*ssa.Call)
+		if !ok {
+			return "", false
+		}
+		if bi, ok := call.Call.Value.(*ssa.Builtin); !ok || bi.Name() != "len" || len(call.Call.Args) != 1 {
+			return "", false
+		}
+		for _, o := range core.Origins(call.Call.Args[0]) {
+			if u, ok := o.(*ssa.UnOp); ok && u.Op == token.MUL {
+				if fa, ok := u.X.(*ssa.FieldAddr); ok {
+					if nt := core.NamedOf(fa.X.Type()); nt != nil && owner(nt) {
+						return fieldNameOf(nt, fa.Field), true
+					}
+				}
+			}
+		}
+		return "", false
+	}
+	fns := repoFns(p, "compiler")
+	for _, fn := range fns {
+		if p.Fset.Position(fn.Pos()).Filename == storeFile {
+			continue
+		}
+		for _, b := range fn.Blocks {
+			for _, in := range b.Instrs {
+				bo, ok := in.(*ssa.BinOp)
+				if !ok {
+					continue
+				}
+				switch bo.Op {
+				case token.LSS, token.LEQ, token.GTR, token.GEQ:
+				default:
+					continue
+				}
+				for _, pair := range [][2]ssa.Value{{bo.X, bo.Y}, {bo.Y, bo.X}} {
+					if _, isK := pair[1].(*ssa.Const); !isK {
+						continue
+					}
+					if name, ok := lenOfField(pair[0], func(nt *types.Named) bool { return nt == codeT }); ok {
+						limited[strings.ToLower(name)] = true
+					}
+				}
+			}
+		}
+	}
+	n := 0
+	for _, fn := range fns {
+		if p.Fset.Position(fn.Pos()).Filename != storeFile {
+			continue
+		}
+		k := 0
+		for _, b := range fn.Blocks {
+			for _, in := range b.Instrs {
+				bo, ok := in.(*ssa.BinOp)
+				if !ok {
+					continue
+				}
+				switch bo.Op {
+				case token.LSS, token.LEQ, token.GTR, token.GEQ:
+				default:
+					continue
+				}
+				for _, pair := range [][2]ssa.Value{{bo.X, bo.Y}, {bo.Y, bo.X}} {
+					kc, isK := pair[1].(*ssa.Const)
+					if !isK || kc.Value == nil {
+						continue
+					}
+					name, ok := lenOfField(pair[0], func(nt *types.Named) bool {
+						return nt != codeT && nt.Obj().Pkg() == cp.Types && p.Fset.Position(nt.Obj().Pos()).Filename == storeFile
+					})
+					if !ok {
+						continue
+					}
+					// (a test against zero or one asks whether there is anything, not how much)
+					if v := kc.Value.ExactString(); v == "0" || v == "1" {
+						continue
+					}
+					n++
+					k++
+					has := limited[strings.ToLower(name)]
+					c.Check(has, core.SSAName(fn)+"|"+name+"|limit-known-to-the-compiler|"+sprintf("%d", k), p.Pos(bo.Pos()),
+						fn.Name()+" tests the number of "+name+" of a stored code object against "+kc.Value.ExactString()+ife(has, "; the compiler limits the same table of the code objects it makes", "; the compiler puts no limit on that table: code that compiles, runs and is marshalled is refused when it is loaded again"))
+				}
+			}
+		}
+	}
+	if n == 0 {
+		c.Pass("compiler|loader-tests-no-table-length", "", "the loader tests the length of no table of the stored form against a constant")
+	}
+	c.Stat("loader_length_tests", n)
+	c.Stat("tables_limited_by_the_compiler", len(limited))
+}
+
+// ---------------------------------------------------------------------------
+// theWritersOfTheStoredFormAgree: the stored form of a code object is written
+// by more than one entry point (MarshalCode, and Code.MarshalJSON for
+// json.Marshal(code)); all of them get it from one function and encode what
+// that function returned.  A writer that puts something into the stored form
+// after that function has returned (a version number) writes data that its
+// siblings do not write, and a reader that asks for it refuses theirs.
+func theWritersOfTheStoredFormAgree(c *core.Ctx) {
+	p := c.P
+	cp := p.Pkg("compiler")
+	maker := core.LookupFunc(cp, "stateFromCode")
+	if maker == nil {
+		core.Undecidedf("compiler.stateFromCode not found")
+	}
+	mf := p.SSAFunc(maker)
+	stT := core.NamedOf(mf.Signature.Results().At(0).Type())
+	if stT == nil {
+		core.Undecidedf("stateFromCode does not return a named type")
+	}
+	n := 0
+	for _, fn := range repoFns(p, "compiler") {
+		if fn == mf {
+			continue
+		}
+		makes, encodes := false, false
+		for _, b := range fn.Blocks {
+			for _, in := range b.Instrs {
+				if ci, ok := in.(ssa.CallInstruction); ok {
+					cal := ci.Common().StaticCallee()
+					if cal == mf {
+						makes = true
+					}
+					if cal != nil && cal.Pkg != nil && cal.Pkg.Pkg.Path() == "encoding/json" && strings.HasPrefix(cal.Name(), "Marshal") {
+						encodes = true
+					}
+				}
+			}
+		}
+		if !makes || !encodes {
+			continue
+		}
+		n++
+		bad := ""
+		for _, b := range fn.Blocks {
+			for _, in := range b.Instrs {
+				if st, ok := in.(*ssa.Store); ok {
+					if fa, ok := st.Addr.(*ssa.FieldAddr); ok && core.NamedOf(fa.X.Type()) == stT {
+						bad = fieldNameOf(stT, fa.Field) + " at " + p.Pos(st.Pos())
+					}
+				}
+			}
+		}
+		c.Check(bad == "", core.SSAName(fn)+"|encodes-what-stateFromCode-returned", p.Pos(fn.Pos()),
+			fn.Name()+" writes the stored form of a code object"+ife(bad == "", ": it encodes what stateFromCode returned, like the other writers", " and sets "+bad+" itself after stateFromCode has returned: the other writers of the same form do not, and data that they produce differs from what this one produces (a reader that asks for the field refuses theirs)"))
+	}
+	if n < 2 {
+		core.Undecidedf("only %d writers of the stored form found", n)
+	}
+	c.Stat("stored_form_writers", n)
+}
+
+// ---------------------------------------------------------------------------
+// namesAreReadFromTheirStorage: code that reads a name loads it from where the
+// name lives at run time (a global, a local, a cell).  The compiler does not
+// replace the load by the value it believes the name has (LoadConst of the
+// literal a constant was declared with): the declaration is an instruction
+// like any other, and when the piece that contains it fails before it runs,
+// later pieces read a value that was never stored - vm.Get says nil, the
+// script says 5.
+func namesAreReadFromTheirStorage(c *core.Ctx) {
+	p := c.P
+	cp := p.Pkg("compiler")
+	stT := core.MustType(cp, "SymbolTable")
+	symT := core.MustType(cp, "Symbol")
+	opP := p.Pkg("op")
+	loadConst := opP.Types.Scope().Lookup("LoadConst")
+	if loadConst == nil {
+		core.Undecidedf("op.LoadConst not found")
+	}
+	lcVal := loadConst.(*types.Const).Val().ExactString()
+	n := 0
+	for _, fn := range repoFns(p, "compiler") {
+		var resolves []ssa.Instruction
+		for _, b := range fn.Blocks {
+			for _, in := range b.Instrs {
+				if ci, ok := in.(ssa.CallInstruction); ok {
+					if cal := ci.Common().StaticCallee(); cal != nil && cal.Signature.Recv() != nil && core.NamedOf(cal.Signature.Recv().Type()) == stT && cal.Name() == "Resolve" {
+						resolves = append(resolves, in)
+					}
+				}
+			}
+		}
+		if len(resolves) == 0 {
+			continue
+		}
+		n++
+		bad := ""
+		for _, b := range fn.Blocks {
+			for _, in := range b.Instrs {
+				ci, ok := in.(ssa.CallInstruction)
+				if !ok {
+					continue
+				}
+				cal := ci.Common().StaticCallee()
+				if cal == nil {
+					continue
+				}
+				if cal.Signature.Recv() != nil && core.NamedOf(cal.Signature.Recv().Type()) == symT && cal.Name() == "Value" {
+					bad = "asks the symbol for a value at " + p.Pos(in.Pos())
+				}
+				if cal.Name() == "emit" && len(ci.Common().Args) >= 2 {
+					if k, ok := ci.Common().Args[1].(*ssa.Const); ok && k.Value != nil && k.Value.ExactString() == lcVal && core.NamedOf(k.Type()) != nil && core.NamedOf(k.Type()).Obj().Pkg() == opP.Types {
+						// ... whose operand comes from what the resolution found
+						fromResolution := false
+						for _, a := range ci.Common().Args[2:] {
+							vals := []ssa.Value{a}
+							if sl, ok := a.(*ssa.Slice); ok {
+								if al, ok := sl.X.(*ssa.Alloc); ok && al.Referrers() != nil {
+									for _, r := range *al.Referrers() {
+										if ia, ok := r.(*ssa.IndexAddr); ok && ia.Referrers() != nil {
+											for _, r2 := range *ia.Referrers() {
+												if s, ok := r2.(*ssa.Store); ok {
+													vals = append(vals, s.Val)
+												}
+											}
+										}
+									}
+								}
+							}
+							for _, v := range vals {
+								if core.DependsOn(v, func(w ssa.Value) bool {
+									for _, r := range resolves {
+										if rv, ok := r.(ssa.Value); ok && w == rv {
+											return true
+										}
+									}
+									return false
+								}) {
+									fromResolution = true
+								}
+							}
+						}
+						if fromResolution {
+							bad = "emits LoadConst with what it found for a name it has resolved at " + p.Pos(in.Pos())
+						}
+					}
+				}
+			}
+		}
+		c.Check(bad == "", core.SSAName(fn)+"|resolved-names-are-loaded-from-their-storage", p.Pos(fn.Pos()),
+			fn.Name()+" resolves a name"+ife(bad == "", " and emits a load from where the name lives", " and "+bad+": the value is taken at compile time on the belief that the declaration has run, which does not hold for a piece that failed before it got there"))
+	}
+	if n < 3 {
+		core.Undecidedf("only %d compile functions resolve names", n)
+	}
+	c.Stat("name_resolving_functions", n)
+}
+
+// ---------------------------------------------------------------------------
+// aRollbackPutsEveryPartBack: the function that puts a code object back to a
+// state taken earlier puts every part back on every path: where it hands a
+// part to that part's own restore (the symbol table), no return is reached
+// without that call.  A short cut that returns early because "nothing was
+// compiled" skips the symbol table, which the first pass of Compile has
+// written before anything was compiled: the names of the functions of a
+// rejected input stay declared.
+func aRollbackPutsEveryPartBack(c *core.Ctx) {
+	p := c.P
+	n := 0
+	for _, fn := range repoFns(p, "compiler") {
+		if fn.Name() != "restore" || fn.Signature.Recv() == nil {
+			continue
+		}
+		var subs []ssa.Instruction
+		for _, b := range fn.Blocks {
+			for _, in := range b.Instrs {
+				if ci, ok := in.(ssa.CallInstruction); ok {
+					if cal := ci.Common().StaticCallee(); cal != nil && cal != fn && cal.Name() == "restore" && core.RepoFunc(cal) {
+						if _, isDefer := in.(*ssa.Defer); !isDefer {
+							subs = append(subs, in)
+						}
+					}
+				}
+			}
+		}
+		if len(subs) == 0 {
+			continue
+		}
+		for i, sub := range subs {
+			n++
+			bad := ""
+			for _, b := range fn.Blocks {
+				for _, in := range b.Instrs {
+					if ret, ok := in.(*ssa.Return); ok && !instrDominates(sub, ret) {
+						bad = p.Pos(ret.Pos())
+					}
+				}
+			}
+			cal := sub.(ssa.CallInstruction).Common().StaticCallee()
+			c.Check(bad == "", core.SSAName(fn)+"|"+core.SSAName(cal)+"|on-every-path|"+sprintf("%d", i+1), p.Pos(sub.Pos()),
+				core.SSAName(fn)+" hands a part to "+core.SSAName(cal)+ife(bad == "", " on every path", "; the return at "+bad+" is reached without it: that part keeps what the rejected input put there (the names its first pass declared)"))
+		}
+	}
+	if n == 0 {
+		core.Undecidedf("no restore function of the compiler hands a part to another restore")
+	}
+	c.Stat("nested_restores", n)
+}
+
+// ---------------------------------------------------------------------------
+// methodsCallTheirGoNamesake: a method of the string and byte-slice objects
+// that carries the name of a function of Go's strings or bytes package is a
+// wrapper of that function and calls it.  The module function of the same
+// name calls it too (C19-R20): a method that answers by other means (a
+// hand-written Join) agrees with the module function, and with Go, only where
+// those means happen to.
+var methodsAnsweringThemselves = map[string]string{}
+
+func methodsCallTheirGoNamesake(c *core.Ctx) {
+	p := c.P
+	op := p.Pkg("object")
+	n := 0
+	for _, pair := range [][2]string{{"String", "strings"}, {"ByteSlice", "bytes"}} {
+		nt := core.MustType(op, pair[0])
+		var gopkg *types.Package
+		for _, im := range op.Types.Imports() {
+			if im.Path() == pair[1] {
+				gopkg = im
+			}
+		}
+		if gopkg == nil {
+			continue
+		}
+		for _, m := range core.Methods(nt) {
+			target, _ := gopkg.Scope().Lookup(m.Name()).(*types.Func)
+			if target == nil || !target.Exported() {
+				continue
+			}
+			fn := p.SSAFunc(m)
+			if fn == nil || fn.Blocks == nil {
+				continue
+			}
+			// the methods of the object interface itself (String, Equals, Compare ...) are not wrappers
+			switch m.Name() {
+			case "Compare", "Equal", "Clone":
+				continue
+			}
+			n++
+			calls := false
+			seen := map[*ssa.Function]bool{}
+			var walk func(f *ssa.Function, d int)
+			walk = func(f *ssa.Function, d int) {
+				if seen[f] || f.Blocks == nil {
+					return
+				}
+				seen[f] = true
+				for _, b := range f.Blocks {
+					for _, in := range b.Instrs {
+						if ci, ok := in.(ssa.CallInstruction); ok {
+							cal := ci.Common().StaticCallee()
+							if cal == nil {
+								continue
+							}
+							if cal.Object() == types.Object(target) {
+								calls = true
+							}
+							if cal.Pkg == fn.Pkg && d < 2 {
+								walk(cal, d+1)
+							}
+						}
+					}
+				}
+			}
+			walk(fn, 0)
+			key := "object." + pair[0] + "." + m.Name()
+			why, listed := methodsAnsweringThemselves[key]
+			c.Check(calls || listed, key+"|calls-its-namesake", p.Pos(fn.Pos()),
+				pair[0]+"."+m.Name()+ife(calls, " calls "+pair[1]+"."+m.Name(), ife(listed, " answers by itself: "+why, " does not call "+pair[1]+"."+m.Name()+": it answers by other means, which agree with Go and with the module function of the same name only where those means and the Go function agree (\",\".join([\"\", \"a\"]))")))
+		}
+	}
+	if n < 10 {
+		core.Undecidedf("only %d methods are named after a function of the Go package they wrap", n)
+	}
+	c.Stat("method_namesakes", n)
+}
+
+// ---------------------------------------------------------------------------
+// aGroupThatSpansLinesClosesAfterALineBreakToo: a parse function that lets a
+// group span lines (it steps over line breaks right after the opening
+// bracket) lets the line be broken before the closing bracket as well: where
+// it expects the closer as the next token, the statement before is a step over
+// line breaks.  A function that folds that step into the comma branch accepts
+// `(\n a,\n b,\n)` and rejects `(\n a,\n b\n)`.
+func aGroupThatSpansLinesClosesAfterALineBreakToo(c *core.Ctx) {
+	p := c.P
+	pp := p.Pkg("parser")
+	tokArg := func(ce *ast.CallExpr, names ...string) bool {
+		for _, a := range ce.Args {
+			s := exprStr(a)
+			for _, nme := range names {
+				if s == "token."+nme {
+					return true
+				}
+			}
+		}
+		return false
+	}
+	callOf := func(e ast.Expr) (*ast.CallExpr, string) {
+		if ue, ok := ast.Unparen(e).(*ast.UnaryExpr); ok {
+			e = ue.X
+		}
+		ce, ok := ast.Unparen(e).(*ast.CallExpr)
+		if !ok {
+			return nil, ""
+		}
+		sel, ok := ce.Fun.(*ast.SelectorExpr)
+		if !ok {
+			return nil, ""
+		}
+		return ce, sel.Sel.Name
+	}
+	isNewlineStep := func(s ast.Stmt) bool {
+		if fs, ok := s.(*ast.ForStmt); ok && fs.Cond != nil {
+			if ce, name := callOf(fs.Cond); ce != nil && name == "peekTokenIs" && tokArg(ce, "NEWLINE") {
+				return true
+			}
+		}
+		return false
+	}
+	n := 0
+	funcBodies(pp, func(fn *types.Func, fd *ast.FuncDecl) {
+		// spans lines: an opener test whose body steps over line breaks
+		spans := false
+		ast.Inspect(fd.Body, func(nd ast.Node) bool {
+			if is, ok := nd.(*ast.IfStmt); ok {
+				if ce, name := callOf(is.Cond); ce != nil && (name == "peekTokenIs" || name == "curTokenIs") && tokArg(ce, "LPAREN", "LBRACKET", "LBRACE") {
+					for _, s := range is.Body.List {
+						if isNewlineStep(s) {
+							spans = true
+						}
+					}
+				}
+			}
+			return true
+		})
+		if !spans {
+			return
+		}
+		k := 0
+		ast.Inspect(fd.Body, func(nd ast.Node) bool {
+			bs, ok := nd.(*ast.BlockStmt)
+			if !ok {
+				return true
+			}
+			for i, s := range bs.List {
+				is, ok := s.(*ast.IfStmt)
+				if !ok {
+					continue
+				}
+				expects := false
+				ast.Inspect(is.Cond, func(x ast.Node) bool {
+					if e, ok := x.(ast.Expr); ok {
+						if ce, name := callOf(e); ce != nil && name == "expectPeek" && tokArg(ce, "RPAREN", "RBRACKET", "RBRACE") {
+							expects = true
+						}
+					}
+					return true
+				})
+				if !expects {
+					continue
+				}
+				n++
+				k++
+				okb := i > 0 && isNewlineStep(bs.List[i-1])
+				c.Check(okb, qual(pp, fd)+"|closer-expected-after-a-step-over-line-breaks|"+sprintf("%d", k), p.Pos(is.Pos()),
+					fd.Name.Name+" lets its group span lines and expects the closing bracket"+ife(okb, " after a step over line breaks", " without a step over line breaks before it: a line broken before the closing bracket (after a last item without a comma) is a parse error, while the same group with a trailing comma parses"))
+			}
+			return true
+		})
+	})
+	if n == 0 {
+		core.Undecidedf("no parse function lets a group span lines")
+	}
+	c.Stat("multi_line_group_closers", n)
 }
